@@ -3,11 +3,13 @@ package c08
 import (
 	"bytes"
 	"encoding/json"
+	"errors"
 	"fmt"
 	"os"
 	"os/exec"
 	"strconv"
 	"strings"
+	"time"
 )
 
 // Isolated execution. A panic in a library goroutine cannot be recovered: it kills the process. The
@@ -134,7 +136,7 @@ func runIsolated(sp spec) *result {
 		cmd.Env = env
 		var buf bytes.Buffer
 		cmd.Stdout, cmd.Stderr = &buf, &buf
-		runErr := cmd.Run()
+		runErr := runWithTimeout(cmd, childWallLimit)
 		out := buf.String()
 		// parse progress
 		var cur struct {
@@ -203,6 +205,12 @@ func runIsolated(sp spec) *result {
 			class = class[:i]
 		}
 		key, site := panicKey(cur.suspect, class, out)
+		switch {
+		case strings.Contains(out, childTag+" STORM"):
+			key, site = "emission-storm:"+versOf(sp)+":"+keyClass(class), "emission storm"
+		case runErr == errChildTimeout:
+			key, site = "hang:"+versOf(sp)+":"+keyClass(class), "no progress for "+childWallLimit.String()+" of wall-clock time (a goroutine spinning or blocked on a mutex: the bubble never settles)"
+		}
 		deathsByKey[key]++
 		res.injected++
 		res.add(key, fmt.Sprintf("case %s: the process died (panic in a library goroutine at %s) on input %s [%s]: %s", sp.id(), site, cur.id, cur.rest, clip(panicLines(out), 500)))
@@ -215,6 +223,38 @@ func runIsolated(sp spec) *result {
 		}
 	}
 	return res
+}
+
+// childWallLimit is a harness watchdog only (never part of an oracle verdict other than "it hangs").
+const childWallLimit = 60 * time.Second
+
+var errChildTimeout = errors.New("child timed out")
+
+func runWithTimeout(cmd *exec.Cmd, d time.Duration) error {
+	if err := cmd.Start(); err != nil {
+		return err
+	}
+	done := make(chan error, 1)
+	go func() { done <- cmd.Wait() }()
+	select {
+	case err := <-done:
+		return err
+	case <-time.After(d):
+		_ = cmd.Process.Kill()
+		<-done
+		return errChildTimeout
+	}
+}
+
+func versOf(sp spec) string {
+	if sp.v.V13 {
+		return "dtls1.3"
+	}
+	return "dtls1.2"
+}
+
+func keyClass(c string) string {
+	return strings.ReplaceAll(strings.ReplaceAll(c, " ", "_"), "+", "_")
 }
 
 func tailOf(s string, n int) string {
